@@ -1406,9 +1406,13 @@ func (cs *clientStream) writeRequest(req *http.Request, streamf func(*clientStre
 	}
 
 	bodyDumps := []*dump.Dumper{}
+	headerDumps := []*dump.Dumper{} // request trailers are header fields
 	for _, dump := range dumps {
 		if dump.RequestBody() {
 			bodyDumps = append(bodyDumps, dump)
+		}
+		if dump.RequestHeader() {
+			headerDumps = append(headerDumps, dump)
 		}
 	}
 
@@ -1445,7 +1449,7 @@ func (cs *clientStream) writeRequest(req *http.Request, streamf func(*clientStre
 			cc.cond.Broadcast()
 			cc.mu.Unlock()
 		})
-		err = cs.writeRequestBody(req, bodyDumps)
+		err = cs.writeRequestBody(req, bodyDumps, headerDumps)
 		stopWake()
 		if err != nil {
 			if err != errStopReqBodyWrite {
@@ -1722,7 +1726,7 @@ func bufPoolIndex(size int) int {
 	return index
 }
 
-func (cs *clientStream) writeRequestBody(req *http.Request, dumps []*dump.Dumper) (err error) {
+func (cs *clientStream) writeRequestBody(req *http.Request, dumps, headerDumps []*dump.Dumper) (err error) {
 	cc := cs.cc
 	body := cs.reqBody
 	sentEnd := false // whether we sent the final DATA frame w/ END_STREAM
@@ -1845,7 +1849,7 @@ func (cs *clientStream) writeRequestBody(req *http.Request, dumps []*dump.Dumper
 	defer cc.wmu.Unlock()
 	var trls []byte
 	if len(trailer) > 0 {
-		trls, err = cc.encodeTrailers(trailer, dumps)
+		trls, err = cc.encodeTrailers(trailer, headerDumps)
 		if err != nil {
 			return err
 		}
